@@ -123,10 +123,12 @@ def main(argv):
     return v.finish(
         level='proof',
         checker_cmd='cd coq && make theories/Corr/C08.vo theories/Props/C08.vo ; coqc work/audit_C08.v (Print Assumptions) ; harness/target/debug/c08 lits|floats|exprs|stmts|soup|mutate|chains|decomp|defects|text ; coqc work/cases_C08/*.v',
-        trusted_base=['modelled, not verified: Model/Fmt.v (fmt.rs), Model/FmtLex.v (lexer.rs token classes as a maximal-munch specification), Model/FmtParse.v (the Expr grammar of lalrparser.lalrpop as precedence climbing; parse_u32_literal; parse_string_literal); the logos automaton and the LALRPOP tables are tied by correspondence only',
+        trusted_base=['modelled, not verified: Model/Fmt.v (fmt.rs), Model/FmtLex.v (lexer.rs token classes as a maximal-munch specification, incl. the observed non-backtracking of `rad(<digits>`), Model/FmtParse.v (the Expr grammar of lalrparser.lalrpop as precedence climbing; parse_u32_literal; parse_string_literal); the logos automaton and the LALRPOP tables are tied by correspondence only (token soups, printed/mutated texts, operator chains)',
+                      'gen/fmttables.py (regular-expression extraction of the token list, regexes, operator spellings, precedence tiers, keyword/escape tables and the prefix-operator guard from lexer.rs, ast/mod.rs, lalrparser.lalrpop, fmt.rs, lalrparser_util.rs); Proofs/FmtTables.v proves them equal to the tables the models use',
                       "Rust's f32 Display (shortest round-trip, no exponent) and str::parse::<f32> are a Section hypothesis of float_bits_roundtrip; the harness sweeps the hypothesis over structured bit patterns (thorough: 2^22)",
                       'statement/item/meta parsing is not modelled: their round trip is checked by the implementation-level oracle; the model covers their printing at every width and the lexing of the printed text'],
-        assumptions=['the same script = equal after folding literal signs, erasing the IntFormat printing hint, reading INF/NAN/true/false as their values, dropping NoInstruction statements and time-label comments',
+        assumptions=['expr_roundtrip (C08_expr_roundtrip) is proved for the expression grammar; statements/items/meta/files are covered by the width theorem, the lexing certificate and the implementation-level oracle',
+                     'the same script = equal after folding literal signs, erasing the IntFormat printing hint, reading INF/NAN/true/false as their values, dropping NoInstruction statements and time-label comments',
                      'text idempotence is claimed for scripts in parser form (what the parser itself produces, non-negative literals); a decompiled script reaches that form after one print/parse round',
                      '--max-columns 0 underflows `width - 1` (Panic in the model) and is outside the range 1..200',
                      'ASCII whitespace only outside string literals; offset comments (--show-instr-offsets) are layout-only and not modelled'])
